@@ -58,7 +58,7 @@ const buildRule = "seeded universes (1-3 packages, 2-7 targets: explicit/glob in
 const faultRule = " Fault runs (mode=faults): per-run budget of 1-3 faults drawn from a per-run subset of {fs-error-read, fs-error-write (ENOSPC), fs-error-stat, short-write, read-error, crash at the k-th file-system operation of a build (incl. inside a copy: a strict prefix is written), SIGINT at a drawn scheduler step, removal of a cache entry between builds}; injected only on cache paths, biased towards blob reads / renames in half of the runs. Oracle relaxed narrowly: a faulted invocation may fail or re-execute, never hang, crash, report success with wrong bytes or leave a corrupt cache."
 
 var plans = map[string]Plan{
-	"C15": {Jobs: []Job{{World: "wbuild", Params: "mode=twin,max_targets=5", Share: 0.6}, {World: "wbuild", Params: "mode=faults,load=minimal,max_targets=5", Share: 0.4}}, Level: "exploration",
+	"C15": {Jobs: []Job{{World: "wbuild", Params: "mode=twin,max_targets=5", Share: 0.6}, {World: "wbuild", Params: "mode=faults,load=minimal,max_targets=5,force=extfail", Share: 0.4}}, Level: "exploration",
 		Rule: buildRule + faultRule + " C15: twin worlds - the same universe and history run in lock-step on machine A (load_outputs=all) and machine B (minimal), separate caches and workspaces, independent schedules: same exit status, same multiset of executed commands, every materialised output of a selected target equal; in both worlds every executed command must find its direct dependencies' outputs (also through aliases) present and current; second job: minimal mode under cache faults.",
 		Real: realBuild, Stub: stubBuild, Assume: append([]string{"twin runs exclude features that make the two worlds legitimately diverge: commands changing the shared external state (checks), external failures, cache-disabled builds, fail-fast"}, buildAssume...), QuickS: 45, ThoroughS: 1200},
 	"C08": {Jobs: []Job{{World: "wbuild", Params: "mode=remote,max_targets=5", Share: 0.4}, {World: "wbuild", Params: "mode=remote,max_targets=5,force=nonhermetic+taint+twins", Share: 0.25}, {World: "wbuild", Params: "mode=remote,focus=faults,max_targets=5", Share: 0.35}}, Level: "fault_enumeration",
